@@ -85,6 +85,10 @@ def main():
         "engines": [
             {"name": "mirfacts", "path": "driver/ + bsv/", "serves_properties": sorted(claimed - {"C04"}),
              "kind_free_text": "rustc_private driver (RUSTC_WORKSPACE_WRAPPER under cargo +nightly check) exporting the type-checked program and MIR of bump_scope as JSON facts; Python rule library: binding-aware call graph, dominance / must-pass-through by edge removal, control dependence, reaching-definition PROV expression trees, unwind walks with drop-flag propagation"},
+            {"name": "avn", "path": "bsv/sym.py", "serves_properties": ["C01", "C05", "C08", "C10", "C12", "C15", "C16"],
+             "kind_free_text": "value numbering of loop-free MIR (ite trees, bounded inlining, store-to-load forwarding, versioned state readers) with an affine normaliser; identities and expected forms, no solver, no path feasibility reasoning"},
+            {"name": "witness", "path": "bsv/witness.py", "serves_properties": ["C04", "C18", "C19"],
+             "kind_free_text": "generated compile-fail witnesses with compile-pass twins (borrow, Send/Sync, settings conversions) judged by rustc against the rlib built from the working tree"},
         ],
         "checks": checks,
         "not_applicable": na,
